@@ -94,7 +94,9 @@ CLAIMED['C12'] = dict(
          'automaton (init-run, start-run, end-run while running, finished while finished; each once, in order, never for a run that '
          'did not start), run arguments present from init-run through end-run and withdrawn at finished, exact correspondence between '
          'the automaton state and (run task, state, run_arg), nothing delivered for a refused request. The plugin (un)registration '
-         'clause is covered by the co-simulation only.' + LIFE_TIE,
+         'clause is a theorem on the registry model Life/Registry.v (a hook call is an atomic snapshot: a plugin receives exactly the '
+         'calls made while its last (un)registration was a registration, each once), tied to register()/unregister()/reset() of a real '
+         'object on generated histories. A run that fails to start is covered by scenarios + oracle only (not a label of the model).' + LIFE_TIE,
     note=LIFE_NOTE, technique='Coq: abstraction to 11 abstract transitions + automaton invariant; co-simulation + oracle', design='5/C12')
 CLAIMED['C03'] = dict(
     text='Machine-checked proof (Coq 8.16.1) on Life/Model.v: every return of a close is without error; the close that does the work '
